@@ -36,6 +36,8 @@ mod content_collector;
 mod handshake_state;
 mod heartbeat_timers;
 mod io_loop_handle;
+#[cfg(amiquip_verif)]
+pub mod verif_probe;
 
 pub(crate) use channel_handle::{Channel0Handle, ChannelHandle};
 use channel_slots::ChannelSlots;
